@@ -12,7 +12,7 @@ Null == [legs |-> <<>>, qtotal |-> QZero, labels |-> <<>>, val |-> [shape |-> <<
 
 VARIABLES pool, used, shared, cls, pending, last, nops, hist
 vars == <<pool, used, shared, cls, pending, last, nops, hist>>
-AbsView == <<pool, used, shared, cls, pending, nops>>
+AbsView == <<pool, used, shared, cls, pending, nops, last>>   \* `last` is kept: distinct operations reaching the same pool are distinct cases for the replay
 Nil == [op |-> "nil"]
 
 Init == /\ pool = [s \in Slots |-> IF s <= Len(InitTensors) THEN InitTensors[s] ELSE Null]
